@@ -19,6 +19,7 @@ func init() {
 			"(D2) seek result classes: the probe validator reports too-early, not-found and too-late on its three index conditions and success otherwise; the binary search uses a probe line only after validation; the multi-file seek maps too-early to the next (older) file, too-late to the start of the newest file — and only too-late —, not-found to an error, and success to that file becoming the current one. " +
 			"(D3) window constants: the chunk buffer is re-read whenever fewer bytes than the 16 KiB entry limit lie between its start and the read position (unless it starts at the file start), the chunk is at least that large and the same constant is used for the seek offset, the bound test and the allocation; the probe window reaches one entry limit back and is allocated one entry limit beyond — necessary for a line shorter than the limit to lie completely inside the buffer. " +
 			"(D4) when the multi-file reader shifts to the older file it positions that file at its start before reading from it. " +
+			"(D5) the buffered window belongs to a position: every function that moves qLogFile.position other than the sequential reader (which moves it to the line readNextLine just returned) empties the buffer first. " +
 			"Not decided: 'every line exactly once, in reverse order' and the exact position after a seek — arithmetic over runtime offsets.",
 		RuleText:    "Natural loops from SSA dominators; four variant idioms; CFG edge guards for the result classes.",
 		Assumptions: []string{"os.File Read/Seek terminate"},
@@ -260,7 +261,7 @@ func runC20(c *Ctx) {
 		}
 		return false, false
 	})
-	offC, nsC := core.UnguardedSinks(rs, func(in ssa.Instruction) bool {
+	offC, nsC := core.UnguardedSinksLocal(rs, func(in ssa.Instruction) bool {
 		s2, ok := in.(*ssa.Store)
 		if !ok {
 			return false
@@ -271,6 +272,92 @@ func runC20(c *Ctx) {
 	r.Check(nOK > 0 && nsC > 0 && len(offC) == 0, "C20-D2", "found-file-becomes-current", p.FnPos(rs), "the file in which the timestamp was found becomes the current file", "the current file is changed although the timestamp was not found in it", traceOf(p, offC)...)
 	c20Windows(c)
 	c20Shift(c)
+	c20BufferFollowsPosition(c)
+}
+
+// c20Sequential: the writers of qLogFile.position that move it line by line
+// inside (or just below) the buffered window, where readNextLine itself
+// re-reads the window; every other writer jumps and must drop the window.
+var c20Sequential = map[string]string{
+	"(*querylog.qLogFile).ReadNext": "moves to the line before the one readNextLine just returned (or to 0 at the start of the file)",
+}
+
+// c20BufferFollowsPosition: D5 — the buffered window belongs to a position; a
+// function that moves the position anywhere else (a seek) empties the buffer
+// first, otherwise the next read indexes the old window with the new position.
+func c20BufferFollowsPosition(c *Ctx) {
+	p, r := c.P, c.R
+	isPosStore := func(in ssa.Instruction) bool {
+		st, ok := in.(*ssa.Store)
+		if !ok {
+			return false
+		}
+		fr, ok := core.FieldOfAddr(st.Addr)
+		return ok && fr.Type == "querylog.qLogFile" && fr.Field == "position"
+	}
+	isBufReset := func(in ssa.Instruction) bool {
+		st, ok := in.(*ssa.Store)
+		if !ok {
+			return false
+		}
+		fr, ok := core.FieldOfAddr(st.Addr)
+		return ok && fr.Type == "querylog.qLogFile" && fr.Field == "buffer" && core.IsNilConst(st.Val)
+	}
+	n := 0
+	for _, fn := range p.ModFnsIn("querylog") {
+		if fn.Blocks == nil {
+			continue
+		}
+		has := false
+		for _, b := range fn.Blocks {
+			for _, in := range b.Instrs {
+				if isPosStore(in) {
+					has = true
+				}
+			}
+		}
+		if !has {
+			continue
+		}
+		n++
+		owners, okOwn := p.Owners(fn)
+		seq := okOwn
+		for _, o := range owners {
+			if _, isSeq := c20Sequential[core.FuncKey(o)]; !isSeq {
+				seq = false
+			}
+		}
+		fk := core.FuncKey(fn)
+		if seq {
+			// sequential reader: the new position comes from the line readNextLine returned, or is the start of the file
+			okAll := true
+			for _, b := range fn.Blocks {
+				for _, in := range b.Instrs {
+					if !isPosStore(in) {
+						continue
+					}
+					st := in.(*ssa.Store)
+					for _, o := range core.Origins(st.Val, core.ProvOpts{Prog: p}) {
+						switch {
+						case o.Kind == "const":
+						case o.Kind == "call" && o.Key == "(*querylog.qLogFile).readNextLine":
+						default:
+							okAll = false
+						}
+					}
+				}
+			}
+			r.Check(okAll, "C20-D5", "sequential-position:"+fk, p.FnPos(fn),
+				"the sequential reader moves the position only to the line readNextLine returned or to the start of the file",
+				fk+" is listed as a sequential reader but moves the position somewhere readNextLine did not report: the buffered window no longer belongs to the position")
+			continue
+		}
+		found, tr, _ := core.Reach(core.Query{From: []core.Point{core.Entry(fn)}, Target: isPosStore, Avoid: isBufReset})
+		r.Check(!found, "C20-D5", "seek-drops-buffered-window:"+fk, p.FnPos(fn),
+			"the buffered window is emptied before the position is moved",
+			fk+" moves the read position without emptying the buffered window first: the next read indexes the old window with the new position (wrong line, or an index out of range)", p.TraceString(tr))
+	}
+	r.Floor("C20-D5", "position-writers", n, 3)
 }
 
 // c20Windows: D3.
